@@ -136,13 +136,16 @@ func Exec(t *testing.T, scn *Scenario) (r *Run, jd *Judged) {
 	cryptotest.SetGlobalRandom(t, scn.Seed^scn.SchedSeed)
 	// the process's time zone is part of the environment: what the library formats or parses without saying
 	// "UTC" depends on it
-	saved := time.Local
+	// (the zone is written into the Location that time.Local points to, after making sure it has been
+	// initialised: the pointer itself is read by every time.Now(), also by the watchdog goroutine)
+	_ = time.Now().Local().String()
+	saved := *time.Local
 	if scn.TZMin != 0 {
-		time.Local = time.FixedZone(fmt.Sprintf("SIM%+d", scn.TZMin), scn.TZMin*60)
+		*time.Local = *time.FixedZone(fmt.Sprintf("SIM%+d", scn.TZMin), scn.TZMin*60)
 	} else {
-		time.Local = time.UTC
+		*time.Local = *time.UTC
 	}
-	defer func() { time.Local = saved }()
+	defer func() { *time.Local = saved }()
 	func() {
 		execActive.Store(true)
 		defer execActive.Store(false)
